@@ -23,8 +23,14 @@ def bases(i):
     NT = {"kind": "struct", "name": f"B{i}NT", "shape": "tuple", "attrs": {}, "generics": [], "fields": [{"name": None, "ty": VEC(P("u64")), "attrs": {}}]}
     UE = {"kind": "enum", "name": f"B{i}UE", "attrs": {"rename_all": "Snake"}, "generics": [],
           "variants": [{"name": "AlphaBeta", "shape": "unit", "fields": [], "attrs": {}}, {"name": "Gamma", "shape": "unit", "fields": [], "attrs": {}}]}
-    items = [L, EI, EX, G, FL, NT, UE]
-    pool = [(N(L["name"]), True), (N(EI["name"]), True), (N(EX["name"]), False), (N(G["name"], P("bool")), True), (N(G["name"], N(L["name"])), True),
+    # one-variant enums printed bare whose only payload is itself a union (flattened, the union still has to be parenthesised)
+    ON = {"kind": "enum", "name": f"B{i}ON", "attrs": {"untagged": True}, "generics": [],
+          "variants": [{"name": "V", "shape": "tuple", "fields": [{"name": None, "ty": N(f"B{i}EI"), "attrs": {"inline": True}}], "attrs": {}}]}
+    OS = {"kind": "enum", "name": f"B{i}OS", "attrs": {}, "generics": [],
+          "variants": [{"name": "Gone", "shape": "tuple", "fields": [{"name": None, "ty": P("u8"), "attrs": {}}], "attrs": {"skip": True}},
+                       {"name": "V", "shape": "tuple", "fields": [{"name": None, "ty": N(f"B{i}EI"), "attrs": {"inline": True}}], "attrs": {"untagged": True}}]}
+    items = [L, EI, EX, G, FL, NT, UE, ON, OS]
+    pool = [(N(ON["name"]), True), (N(OS["name"]), True), (N(L["name"]), True), (N(EI["name"]), True), (N(EX["name"]), False), (N(G["name"], P("bool")), True), (N(G["name"], N(L["name"])), True),
             (N(FL["name"]), True), (N(NT["name"]), False), (N(UE["name"]), False)]
     return items, pool
 
@@ -67,6 +73,12 @@ def siblings(i, j, F, objlike, rng):
     if objlike:
         out.append({"kind": "struct", "name": f"S{i}_{j}_twiceflat", "shape": "named", "attrs": {}, "generics": [], "_tag": "twiceflat",
                     "fields": [{"name": "byname", "ty": FT, "attrs": {}}, {"name": "fl", "ty": FT, "attrs": {"flatten": True}}]})
+    # ... and in the other order: inlined / flattened first, by name afterwards (the by-name use still needs its import)
+    out.append({"kind": "struct", "name": f"S{i}_{j}_inlthen", "shape": "named", "attrs": {}, "generics": [], "_tag": "inlthen",
+                "fields": [{"name": "inl", "ty": FT, "attrs": {"inline": True}}, {"name": "byname", "ty": FT, "attrs": {}}]})
+    if objlike:
+        out.append({"kind": "struct", "name": f"S{i}_{j}_flatthen", "shape": "named", "attrs": {}, "generics": [], "_tag": "flatthen",
+                    "fields": [{"name": "fl", "ty": FT, "attrs": {"flatten": True}}, {"name": "byname", "ty": FT, "attrs": {}}]})
     # `as = "U"` with U DIFFERENT from the field's type, against the item whose field simply has type U, at every position
     U = N(f"B{i}L") if not (F["k"] == "named" and F["id"] == f"B{i}L") else N(f"B{i}FL")
     for pos in ("named", "tuple", "newtype"):
